@@ -323,8 +323,72 @@ def gen_diskdump_pt(rng, work, tag):
             "desc": "diskdump with page tables: %d mapped virtual pages, %d frames" % (len(vaddrs), len(pages))}
 
 
+def gen_lkcd_faroff(rng, work, tag):
+    """LKCD stream whose out-of-order pages lie more than 4 GiB (the 32-bit block offset
+    limit) behind the start of the index block they fall into, so that scanning them makes
+    search_page_desc() split the block (split_pfn_block / alloc_tail_pfn_block) — with tails of
+    several already indexed pages.  The far distance is a hole in a sparse file (mklkcd
+    `skip=`), so the dump costs a few pages of disk."""
+    compression = rng.choice([0, 1, 2])
+    n = rng.choice([6, 8, 10])
+    base = rng.choice([0, 0, 3, 4096 - 4])
+    idxs = list(range(n))
+    # pages left out of the first pass (filled in after the hole); never the first page,
+    # and at least two indexed pages stay behind the first gap
+    ngap = rng.choice([1, 1, 2])
+    gaps = sorted(rng.sample(range(1, n - 2), ngap))
+    first = [i for i in idxs if i not in gaps]
+    unsorted = rng.random() < 0.25
+    if unsorted:
+        head, rest = first[:1], first[1:]
+        rng.shuffle(rest)
+        first = head + rest
+        unsorted = rest != sorted(rest)
+    lines = []
+    order = []
+
+    def page(pfn):
+        fl = "raw" if compression == 0 or rng.random() < 0.3 else "compress"
+        lines.append("@0x%x %s" % (pfn * PAGE, fl))
+        lines.extend(page_lines(rng, pfn, compressible=(fl == "compress")))
+        order.append(pfn)
+    for i in first:
+        page(base + i)
+    for k in range(2):
+        lines.append("@0x%x skip=0x%x raw" % (0x100000000 * (k + 1), rng.choice([0xa0000000, 0x90000000])))
+    late = list(gaps)
+    rng.shuffle(late)
+    for i in late:
+        page(base + i)
+    if rng.random() < 0.5:
+        page(base + n + rng.choice([0, 3]))
+    lines.append("@0 end")
+    data = os.path.join(work, tag + ".data")
+    open(data, "w").write("\n".join(lines) + "\n")
+    f = os.path.join(work, tag + ".dump")
+    tool("mklkcd", f, "arch_name = x86_64\npage_shift = 12\npage_offset = 0xffff880000000000\n"
+         "NR_CPUS = 8\nnum_cpus = 1\ncompression = %d\nDATA = %s\n" % (compression, data))
+    return {"fmt": "lkcd-faroff", "files": [f], "ostype": "", "pages": {p: "x" for p in order}, "order": order,
+            "npages": base + n + 4, "lo": base, "spaces": [1, 1, 0, 2], "vbase": {2: 0xffff880000000000},
+            "sorted": False, "tail_unsorted": unsorted,
+            "desc": "lkcd far-off (block split) order=%s | 2 holes | compression=%d"
+                    % (" ".join(map(str, order)), compression)}
+
+
+def gen_diskdump_split_never(rng, work, tag):
+    """Split diskdump (2-3 files, raw pages so that page data sit at page-aligned, equal
+    offsets in the files); histories for it start with file.mmap_policy = never (read(2)
+    fallback cache, keyed by block | file index) — see gen_history."""
+    while True:
+        d = gen_diskdump(rng, work, tag)
+        if len(d["files"]) > 1:
+            d["fmt"] = "diskdump-split-never"
+            return d
+
+
 GENS = {"diskdump": gen_diskdump, "diskdump-pt": gen_diskdump_pt, "elf": gen_elf, "lkcd": gen_lkcd,
-        "sadump": gen_sadump}
+        "lkcd-faroff": gen_lkcd_faroff, "sadump": gen_sadump,
+        "diskdump-split-never": gen_diskdump_split_never}
 
 
 def gen_dump(rng, work, tag, fmt=None):
@@ -358,8 +422,18 @@ def gen_history(rng, d, nops):
             a += d.get("vbase", {}).get(2, 0)
         return a
 
+    if d["fmt"] == "diskdump-split-never":
+        ops.append("M:0")
+        if rng.random() < 0.5:
+            ops.append("C:%x" % rng.choice([1, 2]))       # small page cache: pages are re-read from the file cache
+        pf = [p for p, v in d["pages"].items() if v != "exclude"]
+        rng.shuffle(pf)
+        for p in pf[:rng.randint(2, 8)]:
+            ops.append("R:1:%x:%x" % (p * PAGE, rng.choice([8, PAGE])))
     for _ in range(nops):
         k = rng.random()
+        if d["fmt"] == "diskdump-split-never" and 0.83 <= k < 0.93:
+            k = 0.1                                        # stay on the read(2) path
         sp = rng.choice(d["spaces"])
         if k < 0.40:
             ln = rng.choice([1, 8, 16, 64, PAGE, PAGE + 1, 2 * PAGE, 3 * PAGE + 5, rng.randrange(1, 300)])
